@@ -246,7 +246,7 @@ def run(tier, seed):
                                                             {"op": "fault", "t": 0, "file": "full", "kind": kind}, {"op": "restart"},
                                                             {"op": "message", "t": 0}, {"op": "run_spawned", "t": 0, "m": 0, "s": 0}, {"op": "replay_all"}]})
     rh.append({"id": "failed-handoff-leftover", "ops": [{"op": "ensure_default"}, {"op": "message", "t": 0}, {"op": "break_artifacts"},
-                                                         {"op": "handoff", "t": 0, "summary": "text"}, {"op": "message", "t": "last"}, {"op": "message", "t": "last"},
+                                                         {"op": "handoff", "t": 0, "summary": "text"}, {"op": "adopt_listed"}, {"op": "message", "t": "last"}, {"op": "message", "t": "last"},
                                                          {"op": "mend_artifacts"}, {"op": "branch", "t": 0}, {"op": "message", "t": "last"}, {"op": "replay_all"}]})
     for res in run_harness("hist", rh, wd, "restart", shards=3, timeout=300):
         frames = res["summary"]["frames"]
